@@ -1,4 +1,5 @@
 import StrandModel.Lemmas.Lawful
+import StrandModel.Lemmas.NatLawful
 /-
 C05 — honest Schnorr, Chaum-Pedersen, plaintext-knowledge and decryption proofs verify.
 Generic over every lawful back-end, every secret, nonce, base, label / context and every
@@ -117,5 +118,45 @@ theorem cp_default_base_interchange (L : Lawful o q A) (y1 y2 g2 : E) (x r : X)
     rw [L.gmodPow_eq]; rfl
   · unfold cpProveWith powBase baseOr
     rw [L.gmodPow_eq]; rfl
+
+/-! ### the multiplicative back-ends (num-bigint, malachite) on every safe-prime parameter set -/
+
+/-- Schnorr completeness for the concrete `Nat` back-ends: every secret, nonce, label, default or
+    explicit base that is a subgroup member; real SHA-512 challenges. -/
+theorem schnorr_complete_nat (P : Params) (fl : Flavour) (h : SafePrimeGroup P) (x r : Nat)
+    (g : Option Nat) (label : Bytes) (hg : ∀ b, g = some b → b ^ P.q % P.p = 1) :
+    schnorrVerify (natOps P fl) ((natOps P fl).emodPow (baseOr (natOps P fl) g) x) g
+      (schnorrProve (natOps P fl) x ((natOps P fl).emodPow (baseOr (natOps P fl) g) x) g label r)
+      label = true :=
+  schnorr_complete (natLawful P fl h) x r g label (fun b hb => natValid_of_pow P b (hg b hb))
+
+theorem cp_complete_nat (P : Params) (fl : Flavour) (h : SafePrimeGroup P) (x r : Nat)
+    (g1 : Option Nat) (g2 : Nat) (label : Bytes) (hg1 : ∀ b, g1 = some b → b ^ P.q % P.p = 1)
+    (hg2 : g2 ^ P.q % P.p = 1) :
+    cpVerify (natOps P fl) ((natOps P fl).emodPow (baseOr (natOps P fl) g1) x)
+      ((natOps P fl).emodPow g2 x) g1 g2
+      (cpProve (natOps P fl) x ((natOps P fl).emodPow (baseOr (natOps P fl) g1) x)
+        ((natOps P fl).emodPow g2 x) g1 g2 label r) label = true :=
+  cp_complete (natLawful P fl h) x r g1 g2 label (fun b hb => natValid_of_pow P b (hg1 b hb))
+    (natValid_of_pow P g2 hg2)
+
+/-! ### non-vacuity: the hypotheses are met by concrete, non-trivial values -/
+def P23 : Params := ⟨23, 11, 2, 2⟩
+theorem P23_safe : SafePrimeGroup P23 :=
+  ⟨by norm_num [P23], by norm_num [P23], by norm_num [P23], by norm_num [P23], by norm_num [P23],
+   by decide⟩
+/-- secret 7, nonce 0 (a boundary nonce OS randomness never yields), explicit base 13, label "ab" -/
+example : schnorrVerify (natOps P23 .bigint) ((natOps P23 .bigint).emodPow 13 7) (some 13)
+    (schnorrProve (natOps P23 .bigint) 7 ((natOps P23 .bigint).emodPow 13 7) (some 13) [97, 98] 0)
+    [97, 98] = true :=
+  schnorr_complete_nat P23 .bigint P23_safe 7 0 (some 13) [97, 98]
+    (by intro b hb; cases hb; norm_num [P23])
+/-- secret q-1 = 10, nonce q-1, default base, malachite flavour, two bases -/
+example : cpVerify (natOps P23 .malachite) ((natOps P23 .malachite).emodPow 2 10)
+    ((natOps P23 .malachite).emodPow 9 10) none 9
+    (cpProve (natOps P23 .malachite) 10 ((natOps P23 .malachite).emodPow 2 10)
+      ((natOps P23 .malachite).emodPow 9 10) none 9 [] 10) [] = true :=
+  cp_complete_nat P23 .malachite P23_safe 10 10 none 9 [] (by intro b hb; cases hb)
+    (by norm_num [P23])
 
 end Strand.C05
